@@ -44,8 +44,8 @@ Strs == <<Str(Ch(<<"a">>)), Sab, Str(Ch(<<"a", "b", "c">>)), PStr(Ch(<<"a", "b">
 D1 == Map1(f, Leaves) \o Prod(g, L1, L1) \o Prod(Cons, <<X, Y, a, b>>, <<X, Y, Z, Nil, Sb, b>>) \o Strs
 Mid == <<f(X), f(Y), f(a), g(X, Y), g(Y, X), g(X, X), g(a, Z), Cons(a, X), Cons(X, Y), Cons(a, Nil), Sab,
          PStr(Ch(<<"a">>), Z)>>
-Arg == <<X, Y, a, P70>>
-D2 == Map1(f, Mid) \o Prod(g, Mid, Arg) \o Prod(g, Arg, Mid) \o Prod(g, <<f(X), f(Y), f(a), g(X, Y), Cons(a, X), Sab>>,
+ArgL == <<X, Y, a, P70>>
+D2 == Map1(f, Mid) \o Prod(g, Mid, ArgL) \o Prod(g, ArgL, Mid) \o Prod(g, <<f(X), f(Y), f(a), g(X, Y), Cons(a, X), Sab>>,
                                                                      <<f(X), f(Z), f(b), g(Y, X), Cons(a, Y), Cons(a, Sb)>>)
       \o Prod(Cons, <<X, a, f(X), f(Y)>>, <<Cons(a, X), Cons(X, Y), Cons(b, Nil), Sab, Sb, PStr(Ch(<<"a">>), Z),
                                             PStr(Ch(<<"b">>), Y)>>)
